@@ -68,6 +68,10 @@ def gen_claims(rng):
     claims = {}
     for _ in range(rng.randrange(0, 6)):
         claims[rand_str(rng) or "k"] = rand_json(rng, 0, 5)
+    if rng.random() < 0.06:
+        # a large claims set with text outside ASCII (a profile, a document): nothing depends on how long the payload is
+        claims["profile"] = rng.choice(["é€\U0001F600", "世界 ", "ß"]) * rng.choice([1500, 3000, 20000])
+        claims["entries"] = [{"n": i, "t": "ü" * (i % 7)} for i in range(rng.choice([50, 400]))]
     for name in ("iss", "sub", "aud", "jti"):
         if rng.random() < 0.3:
             claims[name] = rng.choice(["joe", "é€\U0001F600", ["a", "b"], "", 7])
